@@ -376,6 +376,56 @@ def run(loader, R, tier):
             break
     R.floor("RCP copy-assignment instantiations", nassign, 3)
 
+    # ------------------------------------------------------------ R40.6
+    # a DenseMatrix member that takes another DenseMatrix by const reference
+    # and resizes *this: when the argument IS *this (A.row_insert(A, p)) the
+    # resize changes the argument too, so every read of the argument's
+    # members after the resize needs an alias test somewhere before it
+    # (`&B == this`), or must have been taken into a local before.
+    R.rule("R40.6", "a DenseMatrix member does not read its DenseMatrix "
+                    "argument after resizing *this, unless it has excluded "
+                    "that they are the same object")
+    n6 = 0
+    for u, f in sorted(prog.functions.items(), key=lambda kv: kv[1]["qn"]):
+        if f.get("cls") != "SymEngine::DenseMatrix" or not f.get("body"):
+            continue
+        ps = [p_["n"] for p_ in f.get("params", ())
+              if strip_type(p_.get("t") or "") == "SymEngine::DenseMatrix"
+              and (p_.get("t") or "").startswith("const")]
+        rs = [n.get("l") for n in walk(f["body"])
+              if n.get("k") == "mcall" and n.get("n") == "resize"
+              and (n.get("o") or {}).get("k") == "this"]
+        if not ps or not rs:
+            continue
+        n6 += 1
+        key = short(f["qn"])
+        alias_test = any(
+            n.get("k") == "bin" and n.get("op") in ("==", "!=")
+            and any(x.get("k") == "this" for x in walk(n))
+            and any(x.get("k") == "ref" and x.get("n") in ps
+                    for x in walk(n))
+            for n in walk(f["body"]))
+        late = []
+
+        def cb6(n, guards, line, late=late, ps=ps, rs=rs):
+            if n.get("k") == "mem" and (n.get("o") or {}).get("k") == "ref" \
+                    and (n.get("o") or {}).get("n") in ps \
+                    and (line or 0) > min(rs):
+                late.append((line, show(n)))
+        sym.visit_guarded(f["body"], cb6)
+        R.instance("R40.6", key, sample={
+            "resize_line": min(rs), "alias_test": alias_test,
+            "reads_after_resize": len(late)})
+        if late and not alias_test:
+            R.violation(
+                "R40.6", key, prog.loc(f, late[0][0]),
+                "%s resizes *this (line %s) and afterwards reads `%s` of "
+                "its const DenseMatrix& argument with no test that the "
+                "argument is not *this: called as A.%s(A, ...) the argument "
+                "was resized too, and the copy loops index past the end of "
+                "the storage" % (key, min(rs), late[0][1][:30], f["n"]))
+    R.floor("DenseMatrix members that resize *this and take a matrix", n6, 2)
+
 
 MANIFEST = dict(
     technique="guard-dominance (typestate) rule for unchecked down-casts, "
@@ -387,7 +437,10 @@ MANIFEST = dict(
          "parameter; (2) const is only cast away to steal a dictionary under "
          "use_count()==1 and the reference is only moved out; (3) RCP-"
          "managed objects are created and destroyed only through make_rcp/"
-         "RCP. Out-of-bounds indexing, iterator/Ptr lifetimes, "
+         "RCP; (4) R40.4/R40.5/R40.6: no reference through an invalidated "
+         "iterator, increment-before-release in RCP assignment, and no "
+         "read of a matrix argument after *this was resized without an "
+         "alias test. Out-of-bounds indexing in general, Ptr lifetimes, "
          "uninitialised reads and leaks in general need sanitizer runs and "
          "are not decided by this technique.",
     note="Trusted: the dynamic type predicates; compare() precondition is "
